@@ -111,9 +111,10 @@ def call_line(spec, dips, named=None):
     k = spec["fn"]
     if k == "dsm": return dsm_line(spec["mid"], spec["cfg"], spec.get("named", -1) if named is None else named, dips)
     if k == "ip": return ip_line(spec["mid"], spec.get("named", -1) if named is None else named, spec["pts"], dips)
+    if k == "eit": return core.fcase("c08", [8, spec["mid"], len(dips)], flat(dips))      # "dips" = electrode positions
     return meg_line(spec["sens"], dips)
 
-def fn_name(spec): return {"dsm": "DipSourceMat", "ip": "DipSource2InternalPotMat", "meg": "DipSource2MEGMat"}[spec["fn"]]
+def fn_name(spec): return {"dsm": "DipSourceMat", "ip": "DipSource2InternalPotMat", "meg": "DipSource2MEGMat", "eit": "EITSourceMat", "ssm": "SurfSourceMat"}[spec["fn"]]
 def cfg_name(spec): return (" integrator(%d,%d,%g)" % tuple(spec["cfg"][:3])) if spec["fn"] == "dsm" else ""
 
 def plan(spec):
@@ -136,6 +137,8 @@ def plan(spec):
         return [call_line(spec, ds, named=spec["dom"]), call_line(spec, ds, named=-1)]
     if r == "zero":
         return [call_line(spec, ds)]
+    if r == "star":        # SurfSourceMat on two source meshes that differ away from the listed source vertices
+        return [core.fcase("c08", [9, spec["mid"], spec["files"][0]], []), core.fcase("c08", [9, spec["mid"], spec["files"][1]], [])]
     raise ValueError(r)
 
 def judge(spec, res):
@@ -221,6 +224,18 @@ def judge(spec, res):
             return out
         if len(A) != len(B) or any(not same_col(spec, a, b) for a, b in zip(A, B)):
             out.append(("named domain: differs from located", "%s: naming domain #%d explicitly gives other columns than letting the library locate the dipoles (which all lie in it)" % (fn, spec["dom"])))
+        return out
+    if r == "star":
+        A, B = M
+        if A is None or B is None:
+            if (A is None) != (B is None): out.append(("star: exception", "SurfSourceMat throws for one of two source meshes that differ by one displaced vertex"))
+            return out
+        spec["_nonzero"] = sum(1 for j in spec["same"] if colmax(A[j]) > 0); spec["_changed"] = sum(1 for j in spec["moved"] if not same_bits(A[j], B[j]))
+        for j in spec["same"]:
+            if not same_bits(A[j], B[j]):
+                k = first_diff(A[j], B[j])
+                out.append(("star: column depends on source triangles away from its vertex",
+                            "SurfSourceMat: source vertex %d is not on any triangle touching the displaced vertex %d, yet its column changes (row %d: %r vs %r)" % (j, spec["moved"][0], k, A[j][k], B[j][k]))); break
         return out
     if r == "zero":
         A = M[0]
@@ -336,6 +351,26 @@ def gen_model_specs(rng, h, mid, m, quick, rules=None, consts=None):
     for d in sorted(by_dom):
         inside = [tuple(pt) + mom() for pt, w in [x for x in by_dom[d] if x[0] not in pts][:3]]
         if inside and conds[d] != 0.0: specs.append(dict(sp, rel="named", dips=inside, dom=d))
+    # EITSourceMat: point electrodes next to the scalp; same locality relations (columns = electrodes)
+    R_ = m["info"]["outer_radius"]; c_ = m["info"].get("centre", (0, 0, 0))
+    els = [tuple(x) + (0.0, 0.0, 0.0) for x in models.sensors_on_sphere(rng, rng.randint(2, 5), c_, 1.01 * R_)]     # padded to 6 numbers, only 3 are sent
+    els = [e[:3] for e in els]
+    specs.append(dict(fn="eit", mid=mid, rel="locality", dips=els, p=reidx(len(els)), cut=rng.randint(1, len(els) - 1), zero_cols=[]))      # an empty electrode set is not a case here
+    # SurfSourceMat: a 12-vertex source surface inside a conductive domain, and the same surface with one vertex displaced
+    # along the surface normal: the columns of the source vertices that share no triangle with it must not change
+    cen = None
+    smp = tri_samples(m)
+    for pt, w in zip(cand, where):
+        if len(w) >= 1 and conds[w[0]] != 0.0 and far_from(pt, smp, 0.24 * R_): cen = pt; break
+    if cen is not None:
+        v0, t0 = models.icosphere(0); rad = 0.14 * R_
+        vs = models.transform(v0, rad, cen); mv = rng.randrange(12)
+        vs2 = list(vs); vs2[mv] = tuple(cen[k] + 1.25 * (vs[mv][k] - cen[k]) for k in range(3))
+        adj = {a for t in t0 if mv in t for a in t}
+        d = os.path.join(h.wd, "m%d" % mid)
+        models.write_tri(os.path.join(d, "src0.tri"), vs, t0); models.write_tri(os.path.join(d, "src1.tri"), vs2, t0)
+        specs.append(dict(fn="ssm", mid=mid, rel="star", files=[0, 1], same=[j for j in range(12) if j not in adj], moved=sorted(adj, key=lambda a: a != mv),
+                          dips=[], src=[[list(v) for v in vs], [list(v) for v in vs2], [list(t) for t in t0]]))
     # structure jobs: (model case, harness case, description)
     keys = {}; sd = []
     ridx = reidx(len(dips)) + list(range(len(dips)))
@@ -442,6 +477,9 @@ def main(replay=None):
                 m = rp["model"]; m["meshes"] = [(n, [tuple(v) for v in vs], [tuple(t) for t in ts]) for n, vs, ts in m["meshes"]]
                 model_store[s.get("mid")] = m
                 models.write_model(m, os.path.join(h.wd, "m%d" % s["mid"]))
+                if s.get("src"):
+                    vs, vs2, t0 = s["src"]; d = os.path.join(h.wd, "m%d" % s["mid"])
+                    models.write_tri(os.path.join(d, "src0.tri"), [tuple(v) for v in vs], [tuple(t) for t in t0]); models.write_tri(os.path.join(d, "src1.tri"), [tuple(v) for v in vs2], [tuple(t) for t in t0])
             run_specs(ck, h, [s], mdl_of, env=rp.get("env"))
         elif kind == "integrator":
             mo = core.run_model([rp["model_case"]]); ho = h.run([rp["harness_case"]])
@@ -525,6 +563,9 @@ def main(replay=None):
                   samples=[json.dumps({k: v for k, v in allspecs[0].items() if k not in ("dips",)})[:300], ic[len(ic) // 2][1][:200]],
                   op_distribution=rel_dist, models=infos, integrator=istats, structure_cases=nstruct, structure_mismatches=struct_mis,
                   relation_failures=nspec_fail, traces_validated_against_impl=nstruct + len(ic) + vstats["agree_cases"],
+                  surf_source=dict(star_cases=sum(1 for s_ in allspecs if s_["rel"] == "star"), unchanged_columns_compared=sum(len(s_["same"]) for s_ in allspecs if s_["rel"] == "star"),
+                                   of_which_nonzero=sum(s_.get("_nonzero", 0) for s_ in allspecs if s_["rel"] == "star"), columns_that_did_change=sum(s_.get("_changed", 0) for s_ in allspecs if s_["rel"] == "star"),
+                                   note="SurfSourceMat on a 12-vertex source surface vs the same surface with one vertex displaced: columns of the source vertices sharing no triangle with it compared bitwise (ssm_column_star); the columns of the displaced vertex and its neighbours are expected to change"),
                   several_threads=dict(THREAD_STATS, threads=[2, 4], asserted="DipSourceMat: P0 rows (operatorDipolePot, owner computes) bitwise, P1 rows (operatorDipolePotDer, omp critical accumulation in arrival order) within %g*max|column|, zero columns exactly zero; DipSource2InternalPotMat (no parallel loop): bitwise; DipSource2MEGMat: no parallel loop, one-thread run only" % THREAD_REL),
                   value_tie=dict(vstats, mismatches=vstats["mismatches"][:5], note="complete float model (Sources.DSM/DS2IP/DS2MEG + AdaptInt.integrate + Geom/Kernels.v) vs the real matrices, rounding class 1e-10*max|column|; informative: a mismatch alone is reported as a note, not as a violation (the theorems are parametric in the kernels)"),
                   additivity_worst_relative_discrepancy=worst_add,
